@@ -1,0 +1,9 @@
+//go:build !verif
+
+package http
+
+import "net"
+
+// verifListen lets the verification harness supply the listener. Without the
+// "verif" build tag it always returns nil (use the real network).
+func verifListen(addr string) net.Listener { return nil }
